@@ -282,11 +282,19 @@ def run_property(pid, tier='quick', seed=0, jobs=16, verbose=False):
                     violations.append((n, rp, not uncovered))
                 rec['replay_cmd'] = f'bin/vcheck {pid} --replay {os.path.relpath(rp, ROOT)}'
                 json.dump(rec, open(rp, 'w'), indent=1, default=str)
+    bounded = []
     for e in extra:
-        n_obl += 1
+        if e.get('kind') == 'bounded':
+            # a bounded stand-in is reported, never counted as a discharged obligation
+            bounded.append(dict(name=e['name'], verdict='held on everything enumerated'
+                                if e['verdict'] == 'proved' else e['verdict'],
+                                evaluations=e.get('evaluations'), detail=e.get('detail', '')))
+        else:
+            n_obl += 1
         if e['verdict'] == 'proved':
-            n_proved += 1
-            by_backend[e.get('backend', 'scan')] = by_backend.get(e.get('backend', 'scan'), 0) + 1
+            if e.get('kind') != 'bounded':
+                n_proved += 1
+                by_backend[e.get('backend', 'scan')] = by_backend.get(e.get('backend', 'scan'), 0) + 1
         elif e['verdict'] == 'refuted':
             rp = os.path.join(ROOT, 'replays', pid, _safe(e['name']) + '.json')
             json.dump(dict(property=pid, obligation=e['name'], detail=e.get('detail', ''),
@@ -342,6 +350,7 @@ def run_property(pid, tier='quick', seed=0, jobs=16, verbose=False):
                            detail=str(e.get('detail', ''))[:300]) for e in extra],
         glue_assumed=getattr(idx, 'GLUE', {}).get(pid, []),
         not_run_in_this_tier=skipped_tier,
+        bounded_standins_not_proofs=bounded,
         assumed_contracts_all=[k for k in assumed if pid in REG.contracts[k].props],
         trusted_clauses=sorted(f'{k}: {n}' for k in keys for n in REG.contracts[k].trusted_ensures),
         known_findings=[k['what'] for k in known],
